@@ -416,6 +416,7 @@ def explore(run, max_paths=4000, stats=None):
     stats = stats if stats is not None else {}
     work = [[]]
     results = []
+    stats["_partial"] = results      # completed paths stay reachable if the task is cut short (timeout)
     n = 0
     while work:
         prefix = work.pop()
@@ -424,6 +425,7 @@ def explore(run, max_paths=4000, stats=None):
             raise OutOfReach(f"more than {max_paths} paths")
         ctx = Ctx(prefix, stats)
         set_cur(ctx)
+        stats["_current"] = ctx
         try:
             try:
                 v = run(ctx)
